@@ -3,6 +3,7 @@ import json
 import numpy as np
 
 from harness.core import Machinery
+from checks import binding
 from checks.flowgrid import make_grid
 
 LEVEL = "other"
@@ -47,9 +48,10 @@ def run(ctx):
     with open(path, "w") as f:
         for r in recs:
             f.write(json.dumps({k: r[k] for k in r if k != "grid"}) + "\n")
-    res = ctx.tlc("CatchAlgebraTrace", "MC_CatchAlgebraTrace.cfg", workers=1, timeout=1800, env={"TRACE_FILE": str(path)})
+    res = ctx.tlc("CatchAlgebraTrace", "MC_CatchAlgebraTrace.cfg", timeout=1800, env={"TRACE_FILE": str(path)})
     if not res.tuples("VALIDATED"):
         raise Machinery("CatchAlgebraTrace did not complete:\n" + res.out[-2000:])
+    ctx.binding_demo("CatchAlgebraTrace", "MC_CatchAlgebraTrace.cfg", path, binding.catchalgebra, timeout=1800)
     for line in res.tuples("REJECT"):
         parts = line.strip("<>").split(",")
         r = recs[int(parts[1]) - 1]
